@@ -328,6 +328,12 @@ class lodict(odict):
         """
         return super(lodict, self).__contains__(key.lower())
 
+    def insert(self, index, key, val):
+        """
+        Make key lowercase then insert
+        """
+        super(lodict, self).insert(index, key.lower(), val)
+
     def __getitem__(self, key):
         """
         Make key lowercase then getitem
